@@ -253,6 +253,7 @@ def mk_job(interp, project, tag="me", lazy=None, cached=None, path_known=None, h
 
 
 def inv_job(ctx, job, i=None, require_cached_fresh=True):
+    SDoc = globals().get("SDoc")
     """Class invariant Inv(job) as a list of (label, z3 Bool) over the *current* heap."""
     f = job.fields
     i = f["_id"].e if i is None else i
@@ -267,7 +268,9 @@ def inv_job(ctx, job, i=None, require_cached_fresh=True):
             conds.append(v.name == parts[0])
         return z3.And(*conds)
     out.append(("_path is None or the job directory of _id", z3.BoolVal(True) if f["_path"] is None else loc_is(f["_path"], LJob)))
-    out.append(("_document is None (dropped on id change)", z3.BoolVal(f["_document"] is None)))
+    d = f["_document"]
+    out.append(("_document is None or bound to this job's document file",
+                z3.BoolVal(True) if d is None else (loc_is(d.filename, LIn, Name.DOC) if isinstance(d, SDoc) and isinstance(d.filename, LIn) else z3.BoolVal(False))))
     out.append(("_stores is None", z3.BoolVal(f["_stores"] is None)))
     if f["_statepoint_requires_init"] is False:
         sd = f["_statepoint"]
